@@ -253,21 +253,33 @@ def check_trace(sym, sc: Scenario, pcode: str, want: set, forced_ids=(), cancell
             seen.add(iid)
             uod_first.append((t, name))
     # block events: engine tick numbers -> scenario tick index (engine tick number == scenario tick index)
-    bstart, bend = {}, {}
+    iv = {}          # block name -> list of [start tick, end tick or None] (a block in an Alarm body runs once per invocation)
     stack = []
     for (t, kind, name) in sc.block_events:
         if name == "root":
             continue
         if kind == "start":
             stack.append(name)
-            bstart.setdefault(name, t)
+            iv.setdefault(name, []).append([t, None])
         else:
             if "C05" in want:
                 sym.check(len(stack) > 0 and stack[-1] == name, "C05|block-end-not-innermost",
                           f"block end event for {name!r} while active chain is {stack}")
             if name in stack:
                 stack.remove(name)
-            bend.setdefault(name, t)
+            for rec in iv.get(name, []):
+                if rec[1] is None:
+                    rec[1] = t
+                    break
+
+    def started_by(B, t):
+        return any(s0 <= t for s0, _e in iv.get(B, []))
+
+    def live_at(B, t, slack=1):
+        return any(s0 <= t and (e0 is None or t <= e0 + slack) for s0, e0 in iv.get(B, []))
+
+    def ended_by(B, t):
+        return any(e0 is not None and e0 <= t for _s, e0 in iv.get(B, []))
 
     # ---- C05: Block tag names the innermost active block at the end of every tick ---------------
     if "C05" in want:
@@ -326,7 +338,7 @@ def check_trace(sym, sc: Scenario, pcode: str, want: set, forced_ids=(), cancell
                 # not ahead of us: either a repeat/out-of-order effect, or (alarm / macro re-run) a new invocation
                 if kind == "alarm":
                     # previous run must be complete (everything left is legitimately skipped)
-                    _check_skips(sym, want, S, ptr, len(S), bend, t, f"{kind}:{ln.arg if ln else ''}")
+                    _check_skips(sym, want, S, ptr, len(S), ended_by, t, f"{kind}:{ln.arg if ln else ''}")
                     runs += 1
                     last_run_end_tick = last_effect_tick - 1   # the previous run's last observed effect: it completed no earlier
                     ptr = 0
@@ -339,29 +351,29 @@ def check_trace(sym, sc: Scenario, pcode: str, want: set, forced_ids=(), cancell
                         sym.check(False, f"C02|repeated-or-out-of-order|flow={kind}",
                                   f"{k} {n!r} at tick {t} is repeated or out of source order in the {kind} flow; trace {mark_tick}")
                     break
-            _check_skips(sym, want, S, ptr, j, bend, t, f"{kind}:{ln.arg if ln else ''}")
+            _check_skips(sym, want, S, ptr, j, ended_by, t, f"{kind}:{ln.arg if ln else ''}")
             blocks = S[j][2]
             if "C05" in want or "C02" in want:
                 for B in blocks:
-                    ok = B in bstart and bstart[B] <= t
+                    ok = started_by(B, t)
                     sym.check(ok, "C02|ran-before-enclosing-block-started" if "C02" in want else "C05|ran-before-enclosing-block-started",
-                              f"{k} {n!r} at tick {t} inside block {B!r} which started at {bstart.get(B)}")
-                    if B in bend and "C05" in want:
+                              f"{k} {n!r} at tick {t} inside block {B!r} whose start/end events are {iv.get(B)}")
+                    if ok and "C05" in want:
                         # an instruction whose visit began in the very tick in which another flow ended the block may
                         # still land its effect in the following tick (it had already started): one tick of slack
-                        sym.check(t <= bend[B] + 1, "C05|ran-after-block-ended", f"{k} {n!r} at tick {t} but its block {B!r} ended at {bend[B]}")
+                        sym.check(live_at(B, t), "C05|ran-after-block-ended", f"{k} {n!r} at tick {t} but its block {B!r} was live only during {iv.get(B)}")
                 # everything before j at outer level: blocks that precede and are not enclosing must have ended
                 for i2 in range(0, j):
                     if S[i2][0] == "block" and S[i2][1] not in blocks and len(S[i2][2]) <= len(blocks):
                         B = S[i2][1]
                         if "C05" in want:
-                            sym.check(B in bend and bend[B] <= t, "C05|successor-started-before-block-ended",
-                                      f"{k} {n!r} at tick {t} follows block {B!r} which ended at {bend.get(B)}")
+                            sym.check(ended_by(B, t), "C05|successor-started-before-block-ended",
+                                      f"{k} {n!r} at tick {t} follows block {B!r} whose start/end events are {iv.get(B)}")
             if "C04" in want and kind in ("watch", "alarm"):
                 for B in outer_blocks:
-                    if B in bend:
-                        sym.check(t <= bend[B] + 1, f"C04|{kind}-body-ran-after-block-ended",
-                                  f"{kind} body {k} {n!r} at tick {t}, enclosing block {B!r} ended at {bend[B]}")
+                    if started_by(B, t):
+                        sym.check(live_at(B, t), f"C04|{kind}-body-ran-after-block-ended",
+                                  f"{kind} body {k} {n!r} at tick {t}, enclosing block {B!r} was live only during {iv.get(B)}")
                 if run_first_tick is None:
                     run_first_tick = t
                     # activation needs a tick with the condition true since the previous run ended (or a force)
@@ -371,7 +383,13 @@ def check_trace(sym, sc: Scenario, pcode: str, want: set, forced_ids=(), cancell
                                  and ev["target"]["name"].startswith(kind.capitalize()) for ev in sc.events)
                     sym.check(truth or forced, f"C04|{kind}-ran-without-condition",
                               f"{kind} body started at tick {t} but In1 was never 1 in ticks {lo}..{t} (In1={sc.in1}) and it was not forced")
-                if run_first_tick == t:
+                nested_in_alarm = False
+                q = ln.parent
+                while q is not None:
+                    nested_in_alarm = nested_in_alarm or q.name == "Alarm"
+                    q = q.parent
+                if run_first_tick == t and not nested_in_alarm:
+                    # (a Watch inside an Alarm body is a new Watch in every alarm invocation: a cancel applies to one of them)
                     # a run of the body begins in tick t: no cancel request for this Watch/Alarm that was offered as
                     # cancellable and accepted may precede it (requests are made before the tick with the same number runs)
                     for ev in sc.events:
@@ -384,7 +402,7 @@ def check_trace(sym, sc: Scenario, pcode: str, want: set, forced_ids=(), cancell
         sym.reach()
 
 
-def _check_skips(sym, want, S, lo, hi, bend, t, flow):
+def _check_skips(sym, want, S, lo, hi, ended_by, t, flow):
     """Elements S[lo:hi] were passed over without being observed: legitimate only inside a block that has ended."""
     if "C02" not in want:
         return
@@ -392,6 +410,6 @@ def _check_skips(sym, want, S, lo, hi, bend, t, flow):
         k, n, blocks = S[i]
         if k not in ("mark", "uod"):
             continue
-        ok = any(B in bend and bend[B] <= t for B in blocks)
+        ok = any(ended_by(B, t) for B in blocks)
         sym.check(ok, f"C02|skipped-instruction|flow={flow.split(':')[0]}",
                   f"{k} {n!r} of flow {flow} was passed over (a later instruction ran at tick {t}) although no enclosing block had ended")
